@@ -473,3 +473,43 @@ def call_random(rng, count):
         if rng.random() < 0.2:
             qs, qe = qe, qs
         yield f"CALL lo={lo} chrom={rng.randrange(1, 24)} qid={rng.randrange(1, 999)} rs={rs} re={re_} qs={qs} qe={qe}"
+
+
+# ------------------------------------------------------------------ COMPARE
+def _rand_alset(rng, big=False):
+    n = rng.randrange(0, 6)
+    out = []
+    for _ in range(n):
+        q, r = rng.randrange(1, 5), rng.randrange(1, 3)
+        k = rng.randrange(0, 7) if not big else rng.randrange(150, 260)
+        ps = []
+        rr, qq = rng.randrange(1, 4), rng.randrange(1, 4)
+        for _ in range(k):
+            ps.append((rr, qq))
+            rr += rng.choice([1, 1, 2])
+            qq += rng.choice([0, 1, 1, 2]) if not big else rng.choice([0, 0, 1])
+        out.append((q, r, ps))
+    return out
+
+
+def _alset_str(s):
+    return ";".join(f"{q}:{r}@" + ",".join(f"{a}:{b}" for a, b in ps) for q, r, ps in s)
+
+
+def compare_random(rng, count, big_every=50):
+    import realops
+    for i in range(count):
+        big = (i % big_every == big_every - 1)
+        A = _rand_alset(rng, big)
+        c = rng.random()
+        if c < 0.2:
+            B = A
+        elif c < 0.5:
+            B = [(q, r, [p for p in ps if rng.random() < 0.8] + ([(99, 99)] if rng.random() < 0.3 else [])) for q, r, ps in A
+                 if rng.random() < 0.8] + _rand_alset(rng)[:1]
+        else:
+            B = _rand_alset(rng, big and rng.random() < 0.5)
+        flag = rng.randrange(2)
+        a, b = _alset_str(A), _alset_str(B)
+        m = realops.matcher_table(flag == 1, a, b)
+        yield f"COMPARE flag={flag} A={a} B={b} M={m}"
